@@ -1,17 +1,524 @@
-//! (profile module)
-use crate::monitors::TxnKind;
-use crate::world::*;
+//! C12 — undo/redo are inverses of the captured local changes and touch nothing else.
+//! Node 0 is the editor: it owns an `UndoManager` (scope: 1-3 root types, tracked origin "user",
+//! simulated clock). It also edits with the untracked origin "other"; the other nodes are remote.
 
-pub fn pre_txn(_w: &mut World, _n: usize) {}
-pub fn post_txn(_w: &mut World, _n: usize, _kind: &TxnKind, _uid: Option<usize>) -> VResult {
+use crate::monitors::TxnKind;
+use crate::ops::Tgt;
+use crate::seqmon::{observe_seq, SeqObs, Tag};
+use crate::world::*;
+use std::collections::{HashMap, HashSet};
+use std::sync::atomic::{AtomicU64, Ordering};
+use std::sync::Arc;
+use yrs::sync::Clock;
+use yrs::undo::{Options, UndoManager};
+use yrs::{ReadTxn, Transact};
+
+pub struct SimClock(pub Arc<AtomicU64>);
+impl Clock for SimClock {
+    fn now(&self) -> u64 {
+        self.0.load(Ordering::SeqCst)
+    }
+}
+
+pub struct UndoState {
+    pub um: UndoManager<()>,
+    pub clock: Arc<AtomicU64>,
+    pub scope: Vec<String>,
+    /// distinct consecutive states of the tracked types along the captured steps, and where we are
+    pub d: Vec<String>,
+    pub pos: usize,
+    /// no untracked origin has changed the tracked types since the stacks were last empty/cleared
+    pub pure: bool,
+    pub stack_len: usize,
+    pub origin_of: HashMap<usize, Option<String>>,
+    pub ins_origin: HashMap<Tag, Option<String>>,
+    pub parent: HashMap<Tag, Tgt>,
+    /// elements a captured (tracked-origin) transaction deleted: re-deleting them on redo is the tracked origin's own contribution
+    pub user_deleted: HashSet<Tag>,
+    pub pre_seq: Option<SeqObs>,
+    pub pre_tracked: String,
+    pub pre_untracked: String,
+    pub cur_origin: Option<String>,
+    /// set by deep observers on the tracked roots: something under a tracked root was touched
+    pub touched: Arc<std::sync::atomic::AtomicBool>,
+    pub subs: Vec<yrs::Subscription>,
+}
+
+const TIMEOUT: u64 = 500;
+
+fn scoped_dump(w: &World, scope: &[String], inside: bool) -> String {
+    let txn = w.nodes[0].doc.transact();
+    let mut s = String::new();
+    for r in ["t", "a", "m", "x"] {
+        if scope.iter().any(|x| x == r) != inside {
+            continue;
+        }
+        s.push_str(r);
+        s.push('=');
+        match r {
+            "t" => {
+                if let Some(t) = txn.get_text("t") {
+                    crate::dump::dump_text(&txn, &t, &mut s)
+                }
+            }
+            "a" => {
+                if let Some(t) = txn.get_array("a") {
+                    crate::dump::dump_array(&txn, &t, &mut s)
+                }
+            }
+            "m" => {
+                if let Some(t) = txn.get_map("m") {
+                    crate::dump::dump_map(&txn, &t, &mut s)
+                }
+            }
+            _ => {
+                if let Some(t) = txn.get_xml_fragment("x") {
+                    crate::dump::dump_xml_fragment(&txn, &t, &mut s)
+                }
+            }
+        }
+        s.push(';');
+    }
+    s
+}
+
+fn ensure(w: &mut World) {
+    if w.mon.undo.is_some() {
+        return;
+    }
+    // scope drawn from the run configuration (deterministic): client id bits pick the roots
+    let bits = w.nodes[0].cfg.client_id;
+    let mut scope: Vec<String> = Vec::new();
+    for (i, r) in ["t", "a", "m", "x"].iter().enumerate() {
+        if (bits >> i) & 1 == 1 {
+            scope.push(r.to_string());
+        }
+    }
+    if scope.is_empty() {
+        scope.push("t".into());
+    }
+    if scope.len() == 4 {
+        scope.pop();
+    }
+    let clock = Arc::new(AtomicU64::new(10_000));
+    let mut opts: Options<()> = Options {
+        capture_timeout_millis: TIMEOUT,
+        tracked_origins: HashSet::new(),
+        capture_transaction: None,
+        timestamp: Arc::new(SimClock(clock.clone())),
+        init_undo_stack: Vec::new(),
+        init_redo_stack: Vec::new(),
+    };
+    opts.tracked_origins.insert(yrs::Origin::from("user"));
+    let mut um = UndoManager::with_options(opts);
+    let doc = w.nodes[0].doc.clone();
+    let touched = Arc::new(std::sync::atomic::AtomicBool::new(false));
+    let mut subs = Vec::new();
+    for r in scope.iter() {
+        use yrs::DeepObservable;
+        let f = touched.clone();
+        match r.as_str() {
+            "t" => {
+                let t = doc.get_or_insert_text("t");
+                um.expand_scope(&doc, &t);
+                subs.push(t.observe_deep(move |_, _| f.store(true, Ordering::SeqCst)));
+            }
+            "a" => {
+                let t = doc.get_or_insert_array("a");
+                um.expand_scope(&doc, &t);
+                subs.push(t.observe_deep(move |_, _| f.store(true, Ordering::SeqCst)));
+            }
+            "m" => {
+                let t = doc.get_or_insert_map("m");
+                um.expand_scope(&doc, &t);
+                subs.push(t.observe_deep(move |_, _| f.store(true, Ordering::SeqCst)));
+            }
+            _ => {
+                let t = doc.get_or_insert_xml_fragment("x");
+                um.expand_scope(&doc, &t);
+                subs.push(t.observe_deep(move |_, _| f.store(true, Ordering::SeqCst)));
+            }
+        }
+    }
+    let base = scoped_dump(w, &scope, true);
+    w.mon.undo = Some(UndoState {
+        um,
+        clock,
+        scope,
+        d: vec![base],
+        pos: 0,
+        pure: true,
+        stack_len: 0,
+        origin_of: HashMap::new(),
+        ins_origin: HashMap::new(),
+        parent: HashMap::new(),
+        user_deleted: HashSet::new(),
+        pre_seq: None,
+        pre_tracked: String::new(),
+        pre_untracked: String::new(),
+        cur_origin: None,
+        touched,
+        subs,
+    });
+}
+
+pub fn draw_origin(w: &mut World, n: usize) -> Option<String> {
+    if w.cfg.profile != "undo" || n != 0 {
+        return None;
+    }
+    if w.rng.chance(70) {
+        Some("user".into())
+    } else {
+        Some("other".into())
+    }
+}
+
+pub fn pre_txn(w: &mut World, n: usize) {
+    ensure(w);
+    if n != 0 {
+        return;
+    }
+    let scope = w.mon.undo.as_ref().unwrap().scope.clone();
+    let tracked = scoped_dump(w, &scope, true);
+    let untracked = scoped_dump(w, &scope, false);
+    let obs = observe_seq(&w.nodes[0].doc.transact());
+    let st = w.mon.undo.as_mut().unwrap();
+    st.pre_tracked = tracked;
+    st.pre_untracked = untracked;
+    st.pre_seq = Some(obs);
+    st.cur_origin = w.cur_origin.clone();
+    st.touched.store(false, Ordering::SeqCst);
+}
+
+fn all_tags(o: &SeqObs) -> HashSet<Tag> {
+    let mut s = HashSet::new();
+    for v in o.values() {
+        for t in v {
+            s.insert(t.clone());
+        }
+    }
+    s
+}
+
+pub fn post_txn(w: &mut World, n: usize, kind: &TxnKind, uid: Option<usize>) -> VResult {
+    ensure(w);
+    crate::monitors::check_closed_as(w, n, "undo")?;
+    if n != 0 {
+        return Ok(());
+    }
+    w.stats.oracle_evals += 1;
+    let scope = w.mon.undo.as_ref().unwrap().scope.clone();
+    let tracked = scoped_dump(w, &scope, true);
+    let obs = observe_seq(&w.nodes[0].doc.transact());
+    let origin = w.mon.undo.as_ref().unwrap().cur_origin.clone();
+    let st = w.mon.undo.as_mut().unwrap();
+    let pre_seq = st.pre_seq.take().unwrap_or_default();
+    match kind {
+        TxnKind::Local => {
+            if let Some(u) = uid {
+                st.origin_of.insert(u, origin.clone());
+            }
+            // attribute new elements to the origin of this transaction
+            let was = all_tags(&pre_seq);
+            for (c, v) in obs.iter() {
+                for t in v {
+                    if !was.contains(t) && !st.ins_origin.contains_key(t) {
+                        st.ins_origin.insert(t.clone(), origin.clone());
+                        st.parent.insert(t.clone(), c.clone());
+                    }
+                }
+            }
+            let new_len = st.um.undo_stack().len();
+            if origin.as_deref() == Some("user") {
+                let now = all_tags(&obs);
+                for t in was.iter() {
+                    if !now.contains(t) {
+                        st.user_deleted.insert(t.clone());
+                    }
+                }
+                // a captured transaction: the redo history is gone; a new step or an extension
+                if new_len != st.stack_len || tracked != st.pre_tracked {
+                    st.d.truncate(st.pos + 1);
+                    if new_len > st.stack_len {
+                        if tracked != st.d[st.pos] {
+                            st.d.push(tracked.clone());
+                            st.pos += 1;
+                        }
+                    } else if tracked != st.d[st.pos] {
+                        // the current step was extended
+                        if st.pos > 0 && st.d[st.pos - 1] == tracked {
+                            st.d.pop();
+                            st.pos -= 1;
+                        } else if st.pos == 0 {
+                            // extension of a step that so far had no visible effect
+                            st.d.push(tracked.clone());
+                            st.pos += 1;
+                        } else {
+                            st.d[st.pos] = tracked.clone();
+                        }
+                    }
+                }
+            } else if tracked != st.pre_tracked || st.touched.load(Ordering::SeqCst) {
+                st.pure = false;
+            }
+            st.stack_len = new_len;
+        }
+        TxnKind::Remote(_, _) | TxnKind::Gc => {
+            if tracked != st.pre_tracked || st.touched.load(Ordering::SeqCst) {
+                st.pure = false;
+            }
+            // remote elements are foreign
+            let was = all_tags(&pre_seq);
+            for (c, v) in obs.iter() {
+                for t in v {
+                    if !was.contains(t) && !st.ins_origin.contains_key(t) {
+                        st.ins_origin.insert(t.clone(), None);
+                        st.parent.insert(t.clone(), c.clone());
+                    }
+                }
+            }
+            st.stack_len = st.um.undo_stack().len();
+        }
+        TxnKind::Undo => {
+            // what an undo/redo transaction creates (restored copies of deleted content) is the
+            // tracked origin's own contribution; what it deletes likewise
+            let was = all_tags(&pre_seq);
+            let now = all_tags(&obs);
+            for (c, v) in obs.iter() {
+                for t in v {
+                    if !was.contains(t) && !st.ins_origin.contains_key(t) {
+                        st.ins_origin.insert(t.clone(), Some("user".into()));
+                        st.parent.insert(t.clone(), c.clone());
+                    }
+                }
+            }
+            for t in was.iter() {
+                if !now.contains(t) {
+                    st.user_deleted.insert(t.clone());
+                }
+            }
+        }
+    }
     Ok(())
 }
+
+fn container_tracked(st: &UndoState, t: &Tag, depth: u32) -> bool {
+    // is some ancestor container an insertion of the tracked origin?
+    match st.parent.get(t) {
+        Some(c @ Tgt::N(_, _)) => {
+            let ct = Tag::N(c.clone());
+            if st.ins_origin.get(&ct).map(|o| o.as_deref() == Some("user")).unwrap_or(false) {
+                return true;
+            }
+            depth < 16 && container_tracked(st, &ct, depth + 1)
+        }
+        _ => false,
+    }
+}
+
+fn do_undo_redo(w: &mut World, undo: bool) -> VResult {
+    ensure(w);
+    let scope = w.mon.undo.as_ref().unwrap().scope.clone();
+    let before_tracked = scoped_dump(w, &scope, true);
+    let before_untracked = scoped_dump(w, &scope, false);
+    let before_obs = observe_seq(&w.nodes[0].doc.transact());
+    let pre = crate::monitors::pre_txn(w, 0);
+    let (did, can_more) = {
+        let st = w.mon.undo.as_mut().unwrap();
+        let did = if undo { st.um.undo_blocking() } else { st.um.redo_blocking() };
+        (did, if undo { st.um.can_undo() } else { st.um.can_redo() })
+    };
+    let uid = w.collect_emission(0, true)?;
+    crate::monitors::post_txn(w, 0, TxnKind::Undo, uid, pre, &[])?;
+    w.stats.oracle_evals += 1;
+    let after_tracked = scoped_dump(w, &scope, true);
+    let after_untracked = scoped_dump(w, &scope, false);
+    let after_obs = observe_seq(&w.nodes[0].doc.transact());
+    let what = if undo { "undo" } else { "redo" };
+    // isolation: untracked types untouched
+    if before_untracked != after_untracked {
+        return Err(viol(
+            "undo.untracked-touched",
+            format!(
+                "{}() changed a type outside the undo manager's scope {:?}\n  before: {}\n  after : {}",
+                what, scope, before_untracked, after_untracked
+            ),
+        ));
+    }
+    // isolation: elements of other origins survive in their relative order
+    {
+        let st = w.mon.undo.as_ref().unwrap();
+        let after_all = all_tags(&after_obs);
+        for (c, v) in before_obs.iter() {
+            let foreign: Vec<&Tag> = v.iter().filter(|t| st.ins_origin.get(*t).map(|o| o.as_deref() != Some("user")).unwrap_or(false)).collect();
+            for t in foreign.iter() {
+                if !after_all.contains(*t) && !container_tracked(st, t, 0) && !st.user_deleted.contains(*t) {
+                    return Err(viol(
+                        "undo.foreign-lost",
+                        format!(
+                            "{}() made element {:?} of {:?} disappear; it was inserted by an untracked origin ({:?}) and no container of it was inserted by the tracked origin\n  before: {:?}\n  after : {:?}",
+                            what,
+                            t,
+                            c,
+                            st.ins_origin.get(*t),
+                            v,
+                            after_obs.get(c)
+                        ),
+                    ));
+                }
+            }
+            if let Some(av) = after_obs.get(c) {
+                let surv: Vec<&Tag> = foreign.iter().cloned().filter(|t| av.contains(t)).collect();
+                let order_after: Vec<&Tag> = av.iter().filter(|t| surv.contains(t)).collect();
+                if surv != order_after {
+                    return Err(viol(
+                        "undo.foreign-order",
+                        format!("{}() changed the relative order of elements of other origins in {:?}: {:?} -> {:?}", what, c, surv, order_after),
+                    ));
+                }
+            }
+        }
+    }
+    // inverse law: stuttering walk over the distinct recorded states
+    let st = w.mon.undo.as_mut().unwrap();
+    st.stack_len = st.um.undo_stack().len();
+    if st.pure {
+        if undo {
+            let cur = st.d[st.pos].clone();
+            if before_tracked != cur {
+                // the model lost track (should not happen while pure)
+                st.pure = false;
+                return Ok(());
+            }
+            if after_tracked == cur {
+                // stutter: a step without visible effect was passed over, or nothing to undo
+                if !did && st.pos > 0 {
+                    return Err(viol(
+                        "undo.inverse",
+                        format!(
+                            "undo() reported nothing to undo, but {} captured step(s) with visible effect have not been undone\n  current : {}\n  expected: {}",
+                            st.pos, cur, st.d[st.pos - 1]
+                        ),
+                    ));
+                }
+                if did && !can_more && st.pos > 0 {
+                    return Err(viol(
+                        "undo.inverse",
+                        format!(
+                            "the undo stack ran dry although {} captured step(s) with visible effect are not undone\n  current : {}\n  expected: {}",
+                            st.pos, cur, st.d[st.pos - 1]
+                        ),
+                    ));
+                }
+            } else if st.pos > 0 && after_tracked == st.d[st.pos - 1] {
+                st.pos -= 1;
+                if !can_more && st.pos > 0 {
+                    return Err(viol(
+                        "undo.inverse",
+                        format!("the undo stack ran dry although {} captured step(s) with visible effect are not undone", st.pos),
+                    ));
+                }
+            } else {
+                return Err(viol(
+                    "undo.inverse",
+                    format!(
+                        "undo() did not restore the tracked types to the content before the last captured step\n  before undo: {}\n  after undo : {}\n  expected   : {}",
+                        cur,
+                        after_tracked,
+                        if st.pos > 0 { st.d[st.pos - 1].clone() } else { "(no captured step left: unchanged)".into() }
+                    ),
+                ));
+            }
+        } else {
+            let cur = st.d[st.pos].clone();
+            if before_tracked != cur {
+                st.pure = false;
+                return Ok(());
+            }
+            if after_tracked == cur {
+                if !did && st.pos + 1 < st.d.len() {
+                    return Err(viol(
+                        "undo.inverse",
+                        format!(
+                            "redo() reported nothing to redo, but {} undone step(s) with visible effect have not been redone\n  current : {}\n  expected: {}",
+                            st.d.len() - 1 - st.pos,
+                            cur,
+                            st.d[st.pos + 1]
+                        ),
+                    ));
+                }
+            } else if st.pos + 1 < st.d.len() && after_tracked == st.d[st.pos + 1] {
+                st.pos += 1;
+            } else {
+                return Err(viol(
+                    "undo.inverse",
+                    format!(
+                        "redo() did not restore the tracked types to the content after the undone step\n  before redo: {}\n  after redo : {}\n  expected   : {}",
+                        cur,
+                        after_tracked,
+                        if st.pos + 1 < st.d.len() { st.d[st.pos + 1].clone() } else { "(nothing to redo: unchanged)".into() }
+                    ),
+                ));
+            }
+        }
+    }
+    Ok(())
+}
+
 pub fn at_quiescence(_w: &mut World) -> VResult {
     Ok(())
 }
-pub fn draw(_w: &mut World) -> Option<Ev> {
-    None
+
+fn sp(k: &str, a: Vec<u64>) -> Ev {
+    Ev::Special {
+        n: 0,
+        k: k.to_string(),
+        a,
+        s: vec![],
+    }
 }
-pub fn exec(_w: &mut World, _n: usize, _k: &str, _a: &[u64], _s: &[String]) -> VResult {
-    Ok(())
+
+pub fn draw(w: &mut World) -> Option<Ev> {
+    Some(match w.rng.below(10) {
+        0..=3 => sp("undo", vec![]),
+        4..=5 => sp("redo", vec![]),
+        6..=7 => {
+            // the clock advances by 0 (same capture step) or by >= 2 x timeout (new step)
+            let d = if w.rng.chance(40) { 0 } else { 2 * TIMEOUT + w.rng.below(1000) };
+            sp("clock", vec![d])
+        }
+        8 => sp("undo-reset", vec![]),
+        _ => sp("undo-clear", vec![]),
+    })
+}
+
+pub fn exec(w: &mut World, _n: usize, k: &str, a: &[u64], _s: &[String]) -> VResult {
+    ensure(w);
+    match k {
+        "undo" => do_undo_redo(w, true),
+        "redo" => do_undo_redo(w, false),
+        "clock" => {
+            let d = a.first().copied().unwrap_or(0);
+            w.stats.f_clock += 1;
+            w.stats.sim_ms += d;
+            w.mon.undo.as_ref().unwrap().clock.fetch_add(d, Ordering::SeqCst);
+            Ok(())
+        }
+        "undo-reset" => {
+            w.mon.undo.as_mut().unwrap().um.reset();
+            Ok(())
+        }
+        "undo-clear" => {
+            let scope = w.mon.undo.as_ref().unwrap().scope.clone();
+            let base = scoped_dump(w, &scope, true);
+            let st = w.mon.undo.as_mut().unwrap();
+            st.um.clear_all();
+            st.d = vec![base];
+            st.pos = 0;
+            st.pure = true;
+            st.stack_len = 0;
+            Ok(())
+        }
+        _ => Ok(()),
+    }
 }
